@@ -30,7 +30,7 @@ Diff(p, a) ==
   (IF p.out # a.out THEN {"outcome"} ELSE {})
   \cup (IF p.evs # a.evs THEN {"events"} ELSE {})
   \cup (IF p.nf # a.nf THEN {"fallible-step-count"} ELSE {})
-  \cup (IF p.ret # a.ret THEN {"return"} ELSE {})
+  \cup (IF p.ret # a.ret \/ p.ret2 # a.ret2 THEN {"return"} ELSE {})
   \cup (IF p.post.A # a.post.A \/ p.post.B # a.post.B THEN {"post-state"} ELSE {})
   \cup (IF p.blocks # a.blocks THEN {"blocks"} ELSE {})
 
